@@ -89,6 +89,11 @@ theorem C16_of_program (p : Prog) (h : InRange p 0) (hnd : (evaluate p).Nodup) :
   exact ⟨s, hb, (C16_names_distinct _ p hs hc hnd s hb).1, (C16_final_unnamed _ p hs hc hnd s hb).2.1,
     C16_names_legal _ p hs hc hnd s hb, C16_faithful _ p hs hc hnd s hb⟩
 
+/-- The constants the model hard-wires (8 bits, `_%b`, `x%d`, `i%d`) are the ones in the Go source:
+    `AC.Gen.*` is regenerated from acc/pass/naming.go and acc/build.go on every check. -/
+theorem C16_naming_constants : AC.Gen.byteBits = 8 ∧ AC.Gen.byteFmt = "_%b" ∧ AC.Gen.xRunFmt = "x%d" ∧
+    AC.Gen.indexFmt = "i%d" := naming_constants
+
 /-- non-vacuity: a program whose script has three differently named statements -/
 example : (match buildX (decompile [(0,0),(1,0),(2,2),(3,3),(4,4),(5,2)]) with
     | .ok s => s.map (·.name) | .error _ => []) = ["_10", "_11", "_11000", ""] := by decide
